@@ -66,6 +66,7 @@ s = s.replace("  twin impl:SyncToLinker/open_hash | linkto::SyncToLinker::open_h
 s += """
 unit linkto::ToLinker::poll_read
   file linkto.rs
+  flavours linkto
   at impl:AsyncRead for ToLinker/poll_read
   inherent
   ret r
@@ -79,6 +80,24 @@ unit linkto::ToLinker::poll_read
     r is Ready && r->Ready_0 is Ok ==> r->Ready_0->Ok_0 <= old(buf)@.len() && final(self).linker.fd@.pos == old(self).linker.fd@.pos + r->Ready_0->Ok_0
   ensures [C19.ToLinker.poll_read.eof]
     r is Ready && r->Ready_0 is Ok && r->Ready_0->Ok_0 == 0 && old(buf)@.len() > 0 ==> final(self).linker.fd@.pos == final(self).linker.fd@.content.len()
+
+unit linkto::ToLinker::poll_read#tokio
+  file linkto.rs
+  flavours tokio
+  at impl:AsyncRead for ToLinker/poll_read
+  inherent
+  ret r
+  props C19 C12 C20
+  requires
+    al_wf(*old(self))
+  ensures [C19.ToLinker.poll_read.counts_what_it_hands_out]
+    al_wf(*final(self)) && final(self).linker.fd@.content == old(self).linker.fd@.content && final(self).linker.builder@.algos == old(self).linker.builder@.algos
+      && final(self).linker.target == old(self).linker.target && final(self).cache == old(self).cache && final(self).key == old(self).key && final(self).opts == old(self).opts
+  ensures [C19.ToLinker.poll_read.bytes]
+    r is Ready && r->Ready_0 is Ok ==> old(self).linker.fd@.pos <= final(self).linker.fd@.pos
+      && final(buf)@.filled == old(buf)@.filled + old(self).linker.fd@.content.subrange(old(self).linker.fd@.pos, final(self).linker.fd@.pos)
+  ensures [C19.ToLinker.poll_read.eof]
+    r is Ready && r->Ready_0 is Ok && final(self).linker.fd@.pos == old(self).linker.fd@.pos && old(buf)@.cap > old(buf)@.filled.len() ==> final(self).linker.fd@.pos == final(self).linker.fd@.content.len()
 """
 open(os.path.join(HERE, 'linkto.vc'), 'w').write(s)
 print('wrote linkto.vc')
